@@ -24,6 +24,8 @@ def ev(e, env):
         return ev(e['t'], env) if ev(e['c'], env) else ev(e['e'], env)
     if k == 'Lit':
         v = e.get('v')
+        if isinstance(v, dict):
+            v = v.get('bool', v.get('int', v.get('str')))
         if isinstance(v, bool):
             return v
         if str(v) in ('true', 'false'):
